@@ -249,6 +249,11 @@ def check_property(prop, tier, seed, jobs, write_evidence=True):
                     "encoding: // and % by a symbolic divisor abstracted by fdiv/fmod + lemma library (each lemma discharged separately over interpreted div/mod)",
                     "z3 %s as the deciding back end" % _z3_version()]
         trusted += ["assumed contract (not verified here): " + c.name + " -- " + c.note for c in assumed]
+        for c in cs:
+            for q, oc in sorted(c.overrides.items()):
+                line = "assumed call-site contract (stub used only inside %s): %s -- %s" % (c.name, oc.name, oc.note or "")
+                if line not in trusted:
+                    trusted.append(line)
         ev = {
             "property_id": prop, "tier": tier, "seed": seed, "level": "proof",
             "coverage": {
